@@ -3,25 +3,12 @@ package main
 import (
 	"fmt"
 	"go/token"
+	"strings"
 
 	"golang.org/x/tools/go/ssa"
 
 	"omnilint/core"
 )
-
-func isLenLike(v ssa.Value) bool {
-	cl, ok := v.(*ssa.Call)
-	if !ok {
-		return false
-	}
-	if bi, ok := cl.Call.Value.(*ssa.Builtin); ok && (bi.Name() == "len" || bi.Name() == "cap") {
-		return true
-	}
-	if o := core.CalleeObj(cl); o != nil && o.Name() == "Len" {
-		return true
-	}
-	return false
-}
 
 func main() {
 	c, err := core.Load("/repo", core.Variant{Name: "default"})
@@ -35,27 +22,22 @@ func main() {
 		}
 		for _, b := range f.Blocks {
 			for _, in := range b.Instrs {
-				switch x := in.(type) {
-				case *ssa.Slice:
-					for _, bd := range []ssa.Value{x.Low, x.High, x.Max} {
-						if bo, ok := bd.(*ssa.BinOp); ok && bo.Op == token.SUB {
-							fmt.Printf("SLICE-SUB %s %s: %s  lenlike=%v\n", c.Position(core.InstrPos(in)), core.FuncKey(f), bo, isLenLike(bo.X))
+				for _, op := range in.Operands(nil) {
+					g, ok := (*op).(*ssa.Global)
+					if !ok || !core.InRepo(g.Pkg.Pkg) || strings.HasSuffix(g.Name(), "$guard") {
+						continue
+					}
+					switch x := in.(type) {
+					case *ssa.UnOp:
+						if x.Op == token.MUL {
+							continue
+						}
+					case *ssa.Store:
+						if x.Addr == ssa.Value(g) {
+							continue
 						}
 					}
-				case *ssa.IndexAddr:
-					if bo, ok := x.Index.(*ssa.BinOp); ok && bo.Op == token.SUB {
-						fmt.Printf("INDEX-SUB %s %s: %s lenlike=%v\n", c.Position(core.InstrPos(in)), core.FuncKey(f), bo, isLenLike(bo.X))
-					}
-				case *ssa.Index:
-					if bo, ok := x.Index.(*ssa.BinOp); ok && bo.Op == token.SUB {
-						fmt.Printf("INDEX-SUB %s %s: %s lenlike=%v\n", c.Position(core.InstrPos(in)), core.FuncKey(f), bo, isLenLike(bo.X))
-					}
-				case *ssa.MakeSlice:
-					_, lc := x.Len.(*ssa.Const)
-					_, cc := x.Cap.(*ssa.Const)
-					if !lc || !cc {
-						fmt.Printf("MAKESLICE %s %s: len=%s cap=%s\n", c.Position(core.InstrPos(in)), core.FuncKey(f), x.Len, x.Cap)
-					}
+					fmt.Printf("%s %s: %T %s (global %s)\n", c.Position(core.InstrPos(in)), core.FuncKey(f), in, in, g.Name())
 				}
 			}
 		}
